@@ -180,6 +180,62 @@ class _Fold(ast.NodeTransformer):
             return n.body if n.test.value else n.orelse
         return n
 
+    def visit_Compare(self, n: ast.Compare):
+        self.generic_visit(n)
+        # `None is None`, `<container literal> is None`: decided by the syntax
+        if len(n.ops) == 1 and isinstance(n.ops[0], (ast.Is, ast.IsNot)):
+            l, r = n.left, n.comparators[0]
+            single = lambda x: isinstance(x, ast.Constant) and (x.value is None or isinstance(x.value, bool))
+            never_none = lambda x: isinstance(x, (ast.Dict, ast.DictComp, ast.List, ast.ListComp, ast.Tuple, ast.Set, ast.SetComp, ast.JoinedStr)) or (isinstance(x, ast.Constant) and x.value is not None)
+            val = None
+            if single(l) and single(r):
+                val = l.value is r.value
+            elif (never_none(l) and isinstance(r, ast.Constant) and r.value is None) or (never_none(r) and isinstance(l, ast.Constant) and l.value is None):
+                val = False
+            if val is not None:
+                return ast.copy_location(ast.Constant(value=val if isinstance(n.ops[0], ast.Is) else not val), n)
+        return n
+
+
+def _known_not_none(body: List[ast.stmt], caller: ast.AST, tree: Optional[ast.AST] = None) -> List[ast.stmt]:
+    """`x is None` / `x is not None` where x is a local of the caller bound exactly once, to a container literal or comprehension:
+    decided (an argument that can never be None passed for an Optional parameter of an inlined helper)"""
+    once: Dict[str, ast.AST] = {}
+    count: Dict[str, int] = {}
+    for a in _scope_nodes(caller):
+        for t in (a.targets if isinstance(a, ast.Assign) else [a.target] if isinstance(a, (ast.AnnAssign, ast.AugAssign, ast.For, ast.NamedExpr)) else []):
+            for nm in ast.walk(t):
+                if isinstance(nm, ast.Name) and isinstance(nm.ctx, ast.Store):
+                    count[nm.id] = count.get(nm.id, 0) + 1
+                    if isinstance(a, ast.Assign) and len(a.targets) == 1 and t is nm:
+                        once[nm.id] = a.value
+    params = {p.arg for p in caller.args.posonlyargs + caller.args.args + caller.args.kwonlyargs} if hasattr(caller, "args") else set()
+    def container_call(v: ast.AST) -> bool:
+        # a call of a module-level function annotated to return a container (never Optional)
+        if tree is None or not (isinstance(v, ast.Call) and isinstance(v.func, ast.Name)):
+            return False
+        defs = [d for d in tree.body if isinstance(d, ast.FunctionDef) and d.name == v.func.id]
+        if len(defs) != 1 or defs[0].returns is None:
+            return False
+        r = ast.unparse(defs[0].returns).strip("'\"")
+        return r.split("[")[0] in ("Dict", "List", "Set", "Tuple", "dict", "list", "set", "tuple", "Deque", "DefaultDict")
+
+    safe = {k for k, v in once.items() if count.get(k) == 1 and k not in params and (isinstance(v, (ast.Dict, ast.DictComp, ast.List, ast.ListComp, ast.Set, ast.SetComp)) or container_call(v))}
+    if not safe:
+        return body
+
+    class K(ast.NodeTransformer):
+        def visit_Compare(self, n: ast.Compare):
+            if len(n.ops) == 1 and isinstance(n.ops[0], (ast.Is, ast.IsNot)) and isinstance(n.left, ast.Name) and n.left.id in safe \
+                    and isinstance(n.comparators[0], ast.Constant) and n.comparators[0].value is None:
+                return ast.copy_location(ast.Constant(value=isinstance(n.ops[0], ast.IsNot)), n)
+            return n
+
+        def visit_FunctionDef(self, n):
+            return n
+        visit_AsyncFunctionDef = visit_Lambda = visit_FunctionDef
+    return [K().visit(x) for x in body]
+
 
 def _fold_block(body: List[ast.stmt]) -> List[ast.stmt]:
     out: List[ast.stmt] = []
@@ -590,6 +646,12 @@ class Inliner:
             # L.extend(generator_helper(args)): its yields become L.append(...), its `yield from X` L.extend(X)
             call, form = s.value.args[0], "extend"
             extend_to = s.value.func.value.id
+        elif isinstance(s, ast.Expr) and isinstance(s.value, ast.Call) and isinstance(s.value.func, ast.Attribute) and s.value.func.attr == "extend" \
+                and isinstance(s.value.func.value, ast.Name) and len(s.value.args) == 1 and isinstance(s.value.args[0], ast.Call) and not s.value.keywords \
+                and self.target(s.value.args[0], scope) is not None and not _is_generator(self.target(s.value.args[0], scope)[1]):
+            # L.extend(list_helper(args)): `return [a, b]` becomes L.append(a); L.append(b), `return X` L.extend(X)
+            call, form = s.value.args[0], "extendlist"
+            extend_to = s.value.func.value.id
         elif isinstance(s, ast.Expr) and isinstance(s.value, ast.Call):
             call, form = s.value, "stmt"
         elif isinstance(s, ast.Expr) and isinstance(s.value, ast.YieldFrom) and isinstance(s.value.value, ast.Call):
@@ -653,6 +715,23 @@ class Inliner:
                 if any(isinstance(n, (ast.Yield, ast.YieldFrom)) for x in b2 for n in _walk_no_defs(x)):
                     raise NotInlinable("a yield of the helper is used as an expression")
                 new = prelude + b2
+            elif form == "extendlist":
+                if extend_to in _assigned_names(h) or any(isinstance(n, ast.Name) and n.id == extend_to for n in ast.walk(h)):
+                    raise NotInlinable("the helper uses the name of the list it is extended into")
+
+                def mk(attr, val, at):
+                    return ast.copy_location(ast.Expr(value=ast.Call(func=ast.Attribute(value=ast.Name(id=extend_to, ctx=ast.Load()), attr=attr, ctx=ast.Load()), args=[val], keywords=[])), at)
+
+                def on_ret(v, at):
+                    if v is None:
+                        raise NotInlinable("a list helper returns None on some path")
+                    if isinstance(v, (ast.List, ast.Tuple)) and not any(isinstance(x, ast.Starred) for x in v.elts):
+                        return [mk("append", x, at) for x in v.elts]
+                    return [mk("extend", v, at)]
+                b2, falls = _tailify(body, on_ret)
+                if falls:
+                    raise NotInlinable("a list helper can end without a return")
+                new = prelude + b2
             elif form == "yieldfrom":
                 def on_ret(v, at):
                     return [] if v is None or isinstance(v, (ast.Constant, ast.Name)) else [ast.copy_location(ast.Expr(value=v), at)]
@@ -687,7 +766,11 @@ class Inliner:
                     if not (isinstance(loop, ast.While) and isinstance(loop.test, ast.Constant) and loop.test.value is True) and not getattr(loop, "_svx_total", False):
                         raise NotInlinable("valued helper whose final loop may end without return")
                 new = prelude + b2
-            if any(isinstance(v_, ast.Constant) and isinstance(v_.value, bool) for v_ in subst.values()):
+            d0 = [ast.dump(a_) for a_ in new]
+            k2 = _known_not_none(new, caller, self.tree)
+            if [ast.dump(a_) for a_ in k2] != d0:
+                new = _fold_block(k2)
+            if any(isinstance(v_, ast.Constant) and (isinstance(v_.value, bool) or v_.value is None) for v_ in subst.values()):
                 new = _fold_block(new)
             if not new:
                 new = [ast.copy_location(ast.Pass(), s)]
